@@ -638,6 +638,31 @@ impl TypeVar {
         self.0.with_data(|d| d.solution())
     }
 
+    /// Does this (unsolved) type variable appear inside `ty`?
+    fn occurs_in(&self, ty: &PotentialType, visited: &mut Vec<TypeVar>) -> bool {
+        let children: Vec<&TypeVar> = match ty {
+            PotentialType::Function(_, args, out) => args.iter().chain(std::iter::once(out)).collect(),
+            PotentialType::Tuple(_, elems) => elems.iter().collect(),
+            PotentialType::Nominal(_, _, params) => params.iter().collect(),
+            _ => vec![],
+        };
+        for child in children {
+            if child.0.equiv(&self.0) {
+                return true;
+            }
+            if visited.iter().any(|v| v.0.equiv(&child.0)) {
+                continue;
+            }
+            visited.push(child.clone());
+            for child_ty in child.clone_types().values() {
+                if self.occurs_in(child_ty, visited) {
+                    return true;
+                }
+            }
+        }
+        false
+    }
+
     fn is_underdetermined(&self) -> bool {
         self.0.with_data(|d| d.types.is_empty())
     }
@@ -1464,6 +1489,12 @@ pub(crate) fn constrain_because(
         // Since exactly one of the TypeVars is unsolved, its data will be updated with information from the solved TypeVar
         (false, true) => {
             let potential_ty = tyvar2.single().unwrap();
+            // occurs check: a type that contains itself (`fn f(x) = f`) has no finite solution, and
+            // every later traversal of it would not terminate
+            if tyvar1.occurs_in(&potential_ty, &mut vec![]) {
+                ctx.errors.push(Error::InfiniteType { ty: potential_ty });
+                return;
+            }
             tyvar1.0.with_data(|d: &mut TypeVarData| {
                 if d.types.is_empty() {
                     assert!(!d.locked);
